@@ -8,10 +8,18 @@ use crate::{
 };
 use fmt::Debug;
 use rusty_pool::ThreadPool;
+#[cfg(not(rs_store_verif))]
 use std::sync::{Arc, Mutex};
+#[cfg(not(rs_store_verif))]
 use std::thread::JoinHandle;
+#[cfg(not(rs_store_verif))]
 use std::time::{Duration, Instant};
+#[cfg(not(rs_store_verif))]
 use std::{fmt, thread};
+#[cfg(rs_store_verif)]
+use std::{fmt, sync::Arc, time::Duration};
+#[cfg(rs_store_verif)]
+use verif_rt::{sync::Mutex, thread, thread::JoinHandle, time::Instant};
 
 use crate::iterator::{StateIterator, StateIteratorSubscriber};
 use crate::store::{Store, StoreError, DEFAULT_CAPACITY, DEFAULT_STORE_NAME};
